@@ -1,5 +1,6 @@
 From Coq Require Import List NArith ZArith Bool Lia.
-From LTV Require Import Common.Bytes Params_gen.
+From LTV Require Import Common.Bytes.
+From LTV.C07 Require Import ParamsGen.
 From LTV.C07 Require Import Model.
 Import ListNotations.
 Local Open Scope N_scope.
